@@ -967,3 +967,215 @@ Proof.
   split; [vm_compute; reflexivity|]. split; [vm_compute; reflexivity|].
   eexists; eexists. split; vm_compute; reflexivity.
 Qed.
+
+(* ---------- existence form of termination (programs without reset()) ---------- *)
+From GV Require Import Progress.
+
+Lemma settled_quiescent s : settled glob loc tstep no_spurious s <-> quiescentT s.
+Proof.
+  unfold settled, quiescent, no_spurious. split; intros H t c Hc.
+  - apply H. apply negb_true_iff, Nat.eqb_neq. exact Hc.
+  - apply H. apply negb_true_iff, Nat.eqb_neq in Hc. exact Hc.
+Qed.
+
+(* the work-choices are 0 and 2 (time-out); every other choice but 1 behaves like 0 *)
+Lemma pick_move s : (exists t c, no_spurious c = true /\ enabledT s t c) \/ settled glob loc tstep no_spurious s.
+Proof.
+  destruct (enabled_choice_dec glob loc tstep s 0) as [[t He]|Hn0]; [left; exists t, 0; split; [reflexivity|exact He]|].
+  destruct (enabled_choice_dec glob loc tstep s 2) as [[t He]|Hn2]; [left; exists t, 2; split; [reflexivity|exact He]|].
+  right. intros t c Hc [l [r [Hl Hs]]].
+  unfold no_spurious in Hc. apply negb_true_iff, Nat.eqb_neq in Hc.
+  destruct (Nat.eq_dec c 2) as [->|Hc2]; [apply (Hn2 t); exists l, r; auto|].
+  apply (Hn0 t). exists l, r. split; [exact Hl|]. rewrite <- Hs. symmetry. apply tstep_choice; auto.
+Qed.
+
+Lemma RP_run a0 progs s sc : RP a0 progs s -> RP a0 progs (runT s sc).
+Proof. intros [HN [sc0 ->]]. split; [exact HN|]. exists (sc0 ++ sc). symmetry. apply run_app. Qed.
+
+(* from every reachable state of a reset-free program there is a schedule of at most mu(s) steps, without any
+   spurious wake-up, that ends in a state where nothing can move (whose shape is quiescent_shape) *)
+Lemma eventually_settles a0 progs s : RP a0 progs s ->
+  exists sc, sched_ok no_spurious sc /\ length sc <= mu s /\ quiescentT (runT s sc).
+Proof.
+  intros HR.
+  destruct (settles glob loc tstep mu (InvP a0) (InvP_step a0) no_spurious (fun s0 t c => mu_dec a0 s0 t c) pick_move s
+              (RP_inv _ _ _ HR)) as [sc [Hok [Hlen Hset]]].
+  exists sc. repeat split; auto. apply settled_quiescent. exact Hset.
+Qed.
+
+(* ---------- ... and every thread finishes, for programs with a "driver" ----------
+   Hypothesis (decidable, [wf_finish a0 progs d]): thread d is the only thread that calls activate(); no thread calls
+   reset(); d never calls the untimed waits (so it cannot block for ever); and the sequential effect of d's program
+   on the two flags, started from (activated = a0, triggered = false), ends in (true, true) - i.e. d activates (or
+   the variable is constructed active) and calls trigger() after its last effective activation.  The other threads
+   may wait, wait_for, waitActivation, wait_forActivation, trigger and query in any order and number. *)
+Fixpoint sim (a tr : bool) (p : list op) : bool * bool :=
+  match p with
+  | [] => (a, tr)
+  | Activate :: r => if a then sim a tr r else sim true false r
+  | Trigger :: r => if a then sim a true r else sim a tr r
+  | _ :: r => sim a tr r
+  end.
+Definition nb_op (o : op) : bool := match o with Wait | WaitActivation | Reset => false | _ => true end.
+Definition nb_pc (p : pc) : bool :=
+  match cur_op p with Some Wait | Some WaitActivation | Some Reset => false | _ => true end.
+Definition drv_loc (l : loc) : bool := forallb nb_op (prog l) && nb_pc (at_ l).
+Definition quiet_op (o : op) : bool := match o with Activate | Reset => false | _ => true end.
+Definition quiet_pc (p : pc) : bool := match cur_op p with Some Activate | Some Reset => false | _ => true end.
+Definition quiet_loc (l : loc) : bool := forallb quiet_op (prog l) && quiet_pc (at_ l).
+Definition is_tt (x : bool * bool) : bool := fst x && snd x.
+
+Definition wf_finish (a0 : bool) (progs : list (list op)) (d : nat) : bool :=
+  match nth_error progs d with
+  | Some p => forallb nb_op p && is_tt (sim a0 false p)
+  | None => false
+  end &&
+  forallb (fun u => Nat.eqb u d || forallb quiet_op (nth u progs [])) (seq 0 (length progs)).
+
+(* what the driver's current operation and remaining program will have done to the flags *)
+Definition cont (g : glob) (l : loc) : bool * bool :=
+  match at_ l with
+  | A_load => sim (activated g) (triggered g) (Activate :: prog l)
+  | A_lockT | A_clear => sim true false (prog l)
+  | A_unlockT | A_lockA | A_set => sim true (triggered g) (prog l)
+  | T_load Top => sim (activated g) (triggered g) (Trigger :: prog l)
+  | T_lock Top | T_store Top => sim (activated g) true (prog l)
+  | _ => sim (activated g) (triggered g) (prog l)
+  end.
+
+Record Inv5 (d : nat) (g : glob) (ls : list loc) : Prop := {
+  D_drv : drv_loc (locof ls d) = true;
+  D_quiet : forall u, u <> d -> quiet_loc (locof ls u) = true;
+  D_cont : is_tt (cont g (locof ls d)) = true
+}.
+
+Lemma sim_mono p : forall a tr, is_tt (sim a tr p) = true -> is_tt (sim a true p) = true.
+Proof.
+  induction p as [|o r IH]; intros a tr H; cbn in *.
+  - unfold is_tt in *. cbn in *. apply andb_true_iff in H as [-> _]. reflexivity.
+  - destruct o; cbn in *; try (eapply IH; eauto; fail); destruct a; eauto.
+Qed.
+
+Lemma cont_mono g g' l : activated g' = activated g -> triggered g' = triggered g \/ triggered g' = true ->
+  is_tt (cont g l) = true -> is_tt (cont g' l) = true.
+Proof.
+  intros Ha [Ht|Ht] H; unfold cont in *; rewrite Ha, Ht; auto.
+  destruct (at_ l); auto; try (eapply sim_mono; eauto; fail); try (destruct k; auto; eapply sim_mono; eauto; fail).
+Qed.
+
+Lemma Inv5_step d : forall g ls t c l g' l' es,
+  Inv5 d g ls -> nth_error ls t = Some l -> tstep t c g l = Some (g', l', es) -> Inv5 d g' (upd ls t l').
+Proof.
+  intros g ls t c l g' l' es [HD HQ HC] Hl Hs.
+  destruct (Nat.eq_dec t d) as [->|Hne].
+  - (* a step of the driver *)
+    rewrite (locof_at _ _ _ Hl) in HD, HC.
+    assert (drv_loc l' = true /\ is_tt (cont g' l') = true) as [A B].
+    { destruct l as [pr p s1 s2 s3 s4]. unfold drv_loc, cont in *. cbn [prog at_] in *.
+      step_cases Hs; gsimpl; cbn [prog at_].
+      all: try match goal with o : op |- _ => destruct o; cbn [entry] in * end.
+      all: cbn in HD, HC |- *; rewrite ?andb_false_r in HD; try discriminate.
+      all: try (split; [first [exact HD | apply andb_true_iff in HD; tauto | reflexivity] | ]).
+      all: try match goal with k : ctx |- _ => destruct k; cbn in HD, HC |- *; try discriminate end.
+      all: repeat match goal with
+                  | H : activated ?g = _ |- context [activated ?g] => rewrite H
+                  | H : triggered ?g = _ |- context [triggered ?g] => rewrite H
+                  | H : activated ?g = _, H' : context [activated ?g] |- _ => rewrite H in H'
+                  | H : triggered ?g = _, H' : context [triggered ?g] |- _ => rewrite H in H'
+                  end.
+      all: cbn in HC |- *; rewrite ?andb_false_r in HD; try discriminate.
+      all: try (split; [first [exact HD | apply andb_true_iff in HD; tauto | reflexivity] | ]).
+      all: try exact HC.
+      all: destruct tm; cbn in HD; rewrite ?andb_false_r in HD; try discriminate; split; [exact HD|exact HC]. }
+    constructor.
+    + rewrite (locof_upd _ _ _ _ _ Hl), Nat.eqb_refl. exact A.
+    + intros u Hu. rewrite (locof_upd _ _ _ _ _ Hl). destruct (Nat.eqb_spec u d); [contradiction|apply HQ; exact Hu].
+    + rewrite (locof_upd _ _ _ _ _ Hl), Nat.eqb_refl. exact B.
+  - (* a step of another thread: it never stores activated and never clears triggered *)
+    pose proof (HQ t Hne) as HQt. rewrite (locof_at _ _ _ Hl) in HQt.
+    assert (quiet_loc l' = true /\ activated g' = activated g /\ (triggered g' = triggered g \/ triggered g' = true))
+      as [A [B C]].
+    { destruct l as [pr p s1 s2 s3 s4]. unfold quiet_loc in *. cbn [prog at_] in *.
+      step_cases Hs; gsimpl; cbn [prog at_].
+      all: try match goal with o : op |- _ => destruct o; cbn [entry] in * end.
+      all: cbn in HQt |- *; rewrite ?andb_false_r in HQt; try discriminate.
+      all: try match goal with k : ctx |- _ => destruct k; cbn in HQt |- *; rewrite ?andb_false_r in HQt; try discriminate end.
+      all: try (split; [first [exact HQt | apply andb_true_iff in HQt; tauto | reflexivity] | split; auto]).
+      all: destruct tm; cbn in HQt; (split; [exact HQt | split; auto]). }
+    assert (Hd : Nat.eqb d t = false) by (apply Nat.eqb_neq; auto).
+    constructor.
+    + rewrite (locof_upd _ _ _ _ _ Hl), Hd. exact HD.
+    + intros u Hu. rewrite (locof_upd _ _ _ _ _ Hl). destruct (Nat.eqb_spec u t); [exact A|apply HQ; exact Hu].
+    + rewrite (locof_upd _ _ _ _ _ Hl), Hd. eapply cont_mono; eauto.
+Qed.
+
+Lemma Inv5_init a0 progs d : wf_finish a0 progs d = true -> Inv5 d (gl (init a0 progs)) (thr (init a0 progs)).
+Proof.
+  unfold wf_finish. intros H. apply andb_true_iff in H as [H1 H2].
+  destruct (nth_error progs d) as [p|] eqn:Hd; [|discriminate]. apply andb_true_iff in H1 as [Hnb Htt].
+  unfold init; cbn [gl thr].
+  assert (L : forall u, locof (map (fun p => Loc p Idle 0 0 0 0) progs) u =
+                        match nth_error progs u with Some q => Loc q Idle 0 0 0 0 | None => dloc end).
+  { intros u. unfold locof. rewrite nth_error_map. destruct (nth_error progs u); reflexivity. }
+  constructor.
+  - rewrite L, Hd. unfold drv_loc. cbn. rewrite Hnb. reflexivity.
+  - intros u Hu. rewrite L. destruct (nth_error progs u) as [q|] eqn:Hq; [|reflexivity].
+    unfold quiet_loc. cbn. rewrite andb_true_r.
+    rewrite forallb_forall in H2.
+    assert (u < length progs) as Hlt by (apply nth_error_Some; congruence).
+    specialize (H2 u ltac:(apply in_seq; lia)).
+    apply orb_true_iff in H2 as [H2|H2]; [apply Nat.eqb_eq in H2; contradiction|].
+    rewrite (nth_error_nth _ _ _ Hq) in H2. exact H2.
+  - rewrite L, Hd. unfold cont. cbn. exact Htt.
+Qed.
+
+Lemma wf_finish_no_reset a0 progs d : wf_finish a0 progs d = true -> forallb no_reset_prog progs = true.
+Proof.
+  unfold wf_finish. intros H. apply andb_true_iff in H as [H1 H2].
+  destruct (nth_error progs d) as [p|] eqn:Hd; [|discriminate]. apply andb_true_iff in H1 as [Hnb _].
+  apply forallb_forall. intros q Hin. apply In_nth_error in Hin as [u Hq].
+  unfold no_reset_prog. apply forallb_forall. intros o Ho.
+  destruct (Nat.eq_dec u d) as [->|Hne].
+  - rewrite Hd in Hq. inversion Hq; subst q. rewrite forallb_forall in Hnb. specialize (Hnb o Ho). destruct o; cbn in *; congruence.
+  - rewrite forallb_forall in H2.
+    assert (u < length progs) as Hlt by (apply nth_error_Some; congruence).
+    specialize (H2 u ltac:(apply in_seq; lia)).
+    apply orb_true_iff in H2 as [H2|H2]; [apply Nat.eqb_eq in H2; contradiction|].
+    rewrite (nth_error_nth _ _ _ Hq) in H2. rewrite forallb_forall in H2. specialize (H2 o Ho). destruct o; cbn in *; congruence.
+Qed.
+
+(* when nothing moves any more in such a program, the driver has finished, so both flags are true, so nobody sleeps *)
+Lemma driver_quiescent_finished a0 progs d s :
+  wf_finish a0 progs d = true -> R a0 progs s -> quiescentT s ->
+  activated (gl s) = true /\ triggered (gl s) = true /\ all_fin glob loc fin s = true.
+Proof.
+  intros Hwf HR HQ.
+  assert (H5 : Inv5 d (gl s) (thr s)).
+  { eapply reachable_inv; [apply (Inv5_step d)|apply Inv5_init; exact Hwf|exact HR]. }
+  destruct H5 as [HD _ HC].
+  assert (activated (gl s) = true /\ triggered (gl s) = true) as [Ha Ht].
+  { unfold locof in HD, HC. destruct (nth_error (thr s) d) as [l|] eqn:Hl.
+    - destruct (quiescent_shape _ _ _ _ _ HR HQ Hl) as [Hf|[[Hp _]|[Hp _]]].
+      + unfold fin in Hf. destruct l as [pr p s1 s2 s3 s4]. cbn in *. destruct p; try discriminate. destruct pr; [|discriminate].
+        unfold cont, is_tt in HC. cbn in HC. apply andb_true_iff in HC. exact HC.
+      + unfold drv_loc, nb_pc in HD. rewrite Hp in HD. cbn in HD. rewrite andb_false_r in HD. discriminate.
+      + unfold drv_loc, nb_pc in HD. rewrite Hp in HD. cbn in HD. rewrite andb_false_r in HD. discriminate.
+    - unfold cont, is_tt in HC. cbn in HC. apply andb_true_iff in HC. exact HC. }
+  repeat split; auto.
+  unfold all_fin. apply forallb_forall. intros l Hin. apply In_nth_error in Hin as [t Hl].
+  destruct (quiescent_shape _ _ _ _ _ HR HQ Hl) as [Hf|[[_ [_ [Hc _]]]|[_ [_ [Hc _]]]]]; [exact Hf|congruence|congruence].
+Qed.
+
+(* from every reachable state of such a program there is a schedule of at most mu(s) steps, without any spurious
+   wake-up, after which every thread has finished its program: every wait returns *)
+Lemma eventually_finishes a0 progs d s :
+  wf_finish a0 progs d = true -> R a0 progs s ->
+  exists sc, sched_ok no_spurious sc /\ length sc <= mu s /\ all_fin glob loc fin (runT s sc) = true.
+Proof.
+  intros Hwf HR.
+  assert (HRP : RP a0 progs s) by (split; [eapply wf_finish_no_reset; eauto|exact HR]).
+  destruct (eventually_settles _ _ _ HRP) as [sc [Hok [Hlen HQ]]].
+  exists sc. repeat split; auto.
+  destruct (RP_run _ _ _ sc HRP) as [_ HR'].
+  apply (driver_quiescent_finished a0 progs d _ Hwf HR' HQ).
+Qed.
